@@ -242,7 +242,7 @@ def plan(ctx):
             opts.append(oi)
         jobs.append((sp, opts))
     # targeted stream: three-generation families, PED lines top-down and grandchild-first, with and without reads
-    for k in range(ctx.n(6, 30)):
+    for k in range(ctx.n(12, 40)):
         sp = G.make_spec(rng, {"structure": rng.choice(["three_gen", "three_gen_single", "three_gen_maternal"]),
                                "ped_child_first": bool(k % 2), "recomb_prob": rng.choice([0.15, 0.3]),
                                "missing_gt": False, "gt_error": 0.08, "multi_change": 0.0, "all_hom_chrom": None,
@@ -419,8 +419,8 @@ def evaluate(ctx, results):
             if not holds("rec_vs_vcf", i):
                 ctx.violation("phase:recombination-list-contradicts-phased-vcf",
                               "between two consecutive variants of one phase set at which the output VCF determines the parental "
-                              "haplotype a child inherited (parent heterozygous and phased, child phased in the same set or "
-                              "homozygous), that haplotype changes without an odd number of listed events in between (or does not "
+                              "haplotype a child inherited (parent heterozygous and phased, child phased in the same set, or "
+                              "homozygous with trusted genotypes), that haplotype changes without an odd number of listed events in between (or does not "
                               "change although an odd number is listed): " + desc, rp)
             if holds("rec_complete", i) and not holds("rec_cover", i):
                 ctx.violation("phase:recombination-list-incomplete",
